@@ -824,7 +824,7 @@ func oracle(a *vh.Args, hs []*history, batch int) (map[[2]int][2]string, error) 
 		if err != nil {
 			return nil, fmt.Errorf("oracle batch %d run: %v\n%s", batch, err, trunc(out.String(), 2000))
 		}
-	case <-time.After(120 * time.Second):
+	case <-time.After(600 * time.Second):
 		run.Process.Kill()
 		return nil, fmt.Errorf("oracle batch %d did not terminate", batch)
 	}
@@ -887,7 +887,7 @@ func main() {
 		"Oracle (S): the same statements as one compiled Go program per batch (package-level declarations, statements in order in a function, go 1.18 module), %T and %v of every read equal; "+
 		"a redefinition is rendered as a fresh Go variable; after a redefinition of a variable that a pointer or function refers to (REPL-only semantics) the rest of that history is checked against the model only. "+
 		"non-trivial: the history executes >=1 address-of an Ints slot and declares >=5 variables afterwards; distinct by SHA-256 of the sources")
-	wd := vh.NewWatchdog(rep, 60*time.Second)
+	wd := vh.NewWatchdog(rep, 10*time.Minute) // generous: go build of the oracle / the first fast.New() take minutes on a loaded machine
 
 	var hist []*history
 	// part 0: corpus
